@@ -26,7 +26,7 @@ from workflows.runtime.control_loop import _reduce_tick
 from workflows.runtime.types.commands import CommandPublishEvent, CommandQueueEvent, CommandRunWorker
 from workflows.runtime.types.internal_state import EventAttempt
 from workflows.runtime.types.results import (
-    AddCollectedEvent, DeleteCollectedEvent, StepWorkerFailed, StepWorkerResult,
+    AddCollectedEvent, AddWaiter, DeleteCollectedEvent, StepWorkerFailed, StepWorkerResult,
 )
 from workflows.runtime.types.ticks import TickAddEvent, TickStepResult
 
@@ -259,6 +259,42 @@ def ob_reducer_add(nw: int, b0: bool, b1: bool, b2: bool, q: int, wid: int, live
     if me is not None and me.event is X:
         return False
     return len(_reruns(cmds, wid, X)) == 0
+
+
+@obligation(quick=80, thorough=300, partitions_quick=[f"pol == {p}" for p in (0, 1, 2, 3)],
+            partitions_thorough=[f"pol == {p} and nw == {n}" for p in (0, 1, 2, 3) for n in (1, 2, 3)],
+            what="an invocation that collected (snapshot fresh or stale) and then RAISED, or parked on a waiter: its input event is counted at "
+                 "most once — occurrences of the event in the live buffer + stale-collect re-runs + queued retries + the parked invocation "
+                 "that will run again <= 1 (a retry / replay calls collect_events again for the same event)",
+            bounds={"num_workers": "1..3", "queue": "0..2", "live/snapshot length": "0..2 each",
+                    "how it ended": "failed without retry / retry at once / retry after a delay / parked on wait_for_event"})
+def ob_reducer_collect_then_failure(nw: int, b0: bool, b1: bool, b2: bool, q: int, wid: int, live: int, snap: int, pol: int) -> bool:
+    """
+    pre: _valid_j(nw, b0, b1, b2, q, wid) and q <= QMAX
+    pre: 0 <= live <= 2 and 0 <= snap <= 2 and 0 <= pol <= 3
+    post: _
+    """
+    nw, q, wid, live, snap, pol = conc(nw, 1, 3), conc(q, 0, 2), conc(wid, 0, 2), conc(live, 0, 2), conc(snap, 0, 2), conc(pol, 0, 3)
+    st = _world_j(nw, b0, b1, b2, q, wid, live, snap, policy=StubPolicy(pol if pol <= 2 else 0))
+    if pol <= 2:
+        tail = StepWorkerFailed(exception=ValueError("x"), failed_at=1.0)
+    else:
+        tail = AddWaiter(waiter_id="w9", event_type=EvC, timeout=None)
+    res = [AddCollectedEvent(event_id="buf", event=X), tail]
+    st2, cmds = _reduce_tick(mk_step_result("j", wid, X, res), st, 1, "r")
+    if not (rep_R1(st2) and rep_R2(st2)):
+        return False
+    retries = [c for c in cmds if isinstance(c, CommandQueueEvent) and c.event is X and c.step_name == "j"]
+    reruns = _reruns(cmds, wid, X)
+    in_buffer = ident_count(X, st2.workers["j"].collected_events.get("buf", []))
+    me = find_ip(st2, "j", wid)
+    # a parked invocation lives on as its waiter (the waiter keeps the input event and re-runs the step with it when it is resolved)
+    parked = 1 if (pol == 3 and any(w.waiter_id == "w9" and w.event is X for w in st2.workers["j"].collected_waiters)) else 0
+    if in_buffer + len(retries) + len(reruns) + parked > 1:
+        return False          # X would be collected more than once
+    if retries and me is not None and me.event is X:
+        return False          # the failed invocation still occupies its slot while its retry is queued
+    return True
 
 
 @obligation(quick=80, thorough=300, partitions_quick=["outcome == 0", "outcome == 1", "outcome >= 2"],
